@@ -13,9 +13,10 @@ def to_ir(self: Expression) -> ir.Expression:
 
 @to_ir.register(Integer)
 def to_ir_integer(self: Integer):
-    # This is sensible as long as we only support floating point values and don't support division. If either of those
-    # ceases to be true, this will need to be updated.
-    return ir.IntegerLiteral(self.value)
+    # Every tensor value is a double, so an integer literal in an expression denotes a double too.
+    # Lowering it to an integer literal made the kernel do 32-bit integer arithmetic on literals:
+    # 65536 * 65536 wrapped to 0 and literals beyond 2**31 were truncated.
+    return ir.FloatLiteral(float(self.value))
 
 
 @to_ir.register(Float)
